@@ -17,6 +17,7 @@
 #include <votca/csg/beadstructurealgorithms.h>
 #include <votca/tools/graph.h>
 #include <votca/tools/graph_bf_visitor.h>
+#include <votca/tools/graph_df_visitor.h>
 #include <votca/tools/graphalgorithm.h>
 #include <votca/tools/graphdistvisitor.h>
 #include <votca/tools/reducedgraph.h>
@@ -780,11 +781,10 @@ static json gen_graph_sized(int max_n) {
     std::string k = gen_component(b, (target - b.n) / (ncomp - q) + 1);
     cls = cls.empty() ? k : (cls == k ? cls : "mixture");
   }
-  if (ncomp > 1 && cls != "mixture") cls = "several-" + cls;
+  if (ncomp > 1 && cls != "mixture") cls = "mixture";
   if (rbool(15)) {
     int iso = ri(1, 3);
     for (int i = 0; i < iso; ++i) b.add();
-    cls += "+isolated";
   }
   int n = b.n;
   // shuffle the vertex numbering so that the construction order is not the index order, and the edge order
